@@ -47,7 +47,14 @@ func CompileAllOf(rootSchema *ischema.ISchema) {
 		c.processType(name)
 	}
 
+	// The types which the inherited types bring along. A type the root schema has
+	// under the same name stays: what is registered on the schema itself wins, the
+	// same way as for the types found through references (see AddUnnamedTypes).
+	own := rootSchema.TypesList()
 	for n, t := range c.foundTypes {
+		if _, ok := own[n]; ok {
+			continue
+		}
 		rootSchema.AddType(n, t)
 	}
 }
